@@ -203,7 +203,7 @@ CanEmpty(g) ==
     [] o \in {"ornot", "not", "rewind"} -> TRUE
     [] o = "andis" -> CanEmpty(g[2])
     [] o \in {"map", "to", "ignored", "filter", "trymap", "trymapw", "validate", "mw",
-              "tospan", "toslice", "boxed", "memo", "label", "maperr", "rec", "recd", "withstate"} -> CanEmpty(g[2])
+              "tospan", "toslice", "boxed", "memo", "label", "maperr", "rec", "recd", "withstate", "extsub"} -> CanEmpty(g[2])
     [] o = "lazy" -> TRUE
     [] o = "rep" -> g[3] = 0 \/ CanEmpty(g[2])
     [] o = "sep" -> g[4] = 0 \/ CanEmpty(g[2])
@@ -247,7 +247,7 @@ WF(g) ==
     [] o = "padded" -> WF(g[2]) /\ WF(g[3])
     [] o \in {"group", "grouparr", "choice", "choicev"} -> AllWF(g[2])
     [] o \in {"ornot", "not", "rewind", "map", "to", "ignored", "filter", "trymap", "trymapw", "validate", "mw",
-              "tospan", "toslice", "boxed", "memo", "label", "maperr", "rec", "recd", "withstate", "lazy"} -> WF(g[2])
+              "tospan", "toslice", "boxed", "memo", "label", "maperr", "rec", "recd", "withstate", "extsub", "lazy"} -> WF(g[2])
     [] o \in {"collect", "run", "exact"} -> WFIter(g[2])
     [] o \in {"foldl", "foldlw"} -> WF(g[2]) /\ WFIter(g[3])
     [] o \in {"foldr", "foldrw"} -> WFIter(g[2]) /\ WF(g[3])
@@ -270,7 +270,7 @@ HasOp(g, ops) ==
        [] o = "delim" -> HasOp(g[2], ops) \/ HasOp(g[3], ops) \/ HasOp(g[4], ops)
        [] o \in {"group", "grouparr", "choice", "choicev"} -> AnyHasOp(g[2], ops)
        [] o \in {"ornot", "not", "rewind", "map", "to", "ignored", "filter", "trymap", "trymapw", "validate", "mw",
-                 "tospan", "toslice", "boxed", "memo", "label", "maperr", "rec", "recd", "withstate", "lazy",
+                 "tospan", "toslice", "boxed", "memo", "label", "maperr", "rec", "recd", "withstate", "extsub", "lazy",
                  "collect", "run", "exact", "rep", "enum", "cfgrep", "cfgrepmin", "cfgrepmax", "cfgreptry"} -> HasOp(g[2], ops)
        [] o = "sep" -> HasOp(g[2], ops) \/ HasOp(g[3], ops)
        [] o \in {"foldl", "foldr", "foldlw", "foldrw"} -> HasOp(g[2], ops) \/ HasOp(g[3], ops)
